@@ -3,7 +3,7 @@
 use crate::common::*;
 use cteepbd::*;
 
-const MIXES: [&str; 11] = ["elpv", "hp", "hppv", "st", "red1", "bio", "bionrb", "bioout", "nodem", "zerodem", "biogas"];
+const MIXES: [&str; 12] = ["elpv", "hp", "hppv", "st", "red1", "bio", "bionrb", "biored1", "bioout", "nodem", "zerodem", "biogas"];
 
 pub fn units(tier: &str, _seed: u64) -> Vec<String> {
     let mut v = vec![];
@@ -72,6 +72,13 @@ fn build(mix: &str, n: usize, extra: &str) -> (String, Option<F>) {
             s.push_str(&format!("CONSUMO, ACS, BIOMASA, {}\n2, CONSUMO, ACS, EAMBIENTE, {}\nDEMANDA, ACS, {}\n", row("bm"), row("ma"), rowf(&|t| k(0.8) * e("bm", t) + e("ma", t))));
             let dem = <F as Scalar>::sum((0..n).map(|t| k(0.8) * e("bm", t) + e("ma", t)));
             Some((sum("ma") + (dem - sum("ma")) * fbio) / dem)
+        }
+        // biomass + district network with the default factors: the network covers its use with nothing renewable,
+        // biomass covers the rest
+        "biored1" => {
+            s.push_str(&format!("CONSUMO, ACS, BIOMASA, {}\nCONSUMO, ACS, RED1, {}\nDEMANDA, ACS, {}\n", row("bm"), row("r1"), rowf(&|t| k(0.8) * e("bm", t) + e("r1", t))));
+            let dem = <F as Scalar>::sum((0..n).map(|t| k(0.8) * e("bm", t) + e("r1", t)));
+            Some(((dem - sum("r1")) * fbio) / dem)
         }
         // biomass next to a non-nearby carrier, with the boiler's output declared
         "bioout" => {
